@@ -105,6 +105,7 @@ def main(tier, replay=None):
         first_id = None
         seen = {}
         prev_stage_addrs = None
+        prev_import = None
         created = None
         for x in lines:
             if x[0] != "I":
@@ -114,6 +115,19 @@ def main(tier, replay=None):
             if sc.startswith("import-accepted-the-passphrase-followed"):
                 viol("passphrase-trailing-nul-equivalent", "case %d: ImportWallet accepted the passphrase followed by a zero byte" % k)
                 continue
+            if sc.startswith("stage-failed"):
+                viol("stage-failed", "case %d: a stage of the wallet life could not be carried out: %s" % (k, sc))
+                continue
+            if sc.startswith("revealed-mnemonic-differs"):
+                shown = sc.split(":")[-1]
+                try:
+                    shown = bytes.fromhex(shown).decode("latin1")
+                except ValueError:
+                    pass
+                viol("mnemonic-differs", "case %d: stage %s: GetMnemonic reveals %r, the wallet was created with %r" % (k, stage, shown[:120], bytes.fromhex(mnhex).decode("latin1")[:120]))
+                if addrs == "-":
+                    continue
+                sc = "ok"
             if sc.startswith("import-failed"):
                 viol("import-mnemonic-failed", "case %d: %s: %s" % (k, stage, sc))
                 continue
@@ -143,6 +157,9 @@ def main(tier, replay=None):
             st = stage.split(":")
             if st[0] == "create":
                 created = ex
+            elif st[0] == "import-keystore-2hop":
+                if prev_import is not None and (A != prev_import[0] or counters != prev_import[1]):
+                    viol("second-hop-differs", "case %d: the export of the imported keystore, imported again, gives counters %s / %d addresses; the first import had %s / %d" % (k, counters, len(A), prev_import[1], len(prev_import[0])))
             elif st[0] == "import-keystore" and created is not None and ex != max(1, created):
                 viol("import-counter", "case %d: the imported keystore has %d external addresses, the exporter had %d" % (k, ex, created))
             elif st[0] in ("restart", "pubpass-changed", "restart-newpub") and prev_stage_addrs is not None and A != prev_stage_addrs:
@@ -152,6 +169,8 @@ def main(tier, replay=None):
                 if ex != max(1, hint_ex) or inn != hint_in:
                     viol("import-mnemonic-counter", "case %d: stage %s: counters %s" % (k, stage, counters))
             prev_stage_addrs = A
+            if st[0] == "import-keystore":
+                prev_import = (A, counters)
         # the model
         if not short:
             md = model.get(("D", k))
@@ -188,7 +207,7 @@ def main(tier, replay=None):
     c.coverage.update({
         "evaluations": nstages,
         "distinct_nontrivial": len(distinct),
-        "rule": "one evaluation = one observed stage of one wallet life (create / import-keystore / more-addresses / restart / pubpass-changed / restart-newpub / import-mnemonic with spacing variant and index hints); "
+        "rule": "one evaluation = one observed stage of one wallet life (create / import-keystore (+ revealed mnemonic) / more-addresses / restart / pubpass-changed / restart-newpub / import-keystore-2hop = the export of the imported keystore imported into a third fresh instance / import-mnemonic with spacing variant and index hints); "
                 "distinct_nontrivial = distinct (entropy size, stage, number of addresses, counters). Every address of every stage is signed for and the signature verified against the reference-derived key. " + stats,
         "cases": len(cases), "addresses_checked": naddr, "entropy_bits": bits_seen,
         "short_parent_cases_skipped_for_reference": nshort,
